@@ -13,3 +13,4 @@ import JivaVerif.Properties.Controller
 import JivaVerif.Properties.C12
 import JivaVerif.Properties.C17
 import JivaVerif.Tie
+import JivaVerif.Properties.C15
